@@ -210,7 +210,7 @@ def plan_C20(ck):
 
 def plan_C15(ck):
     q = ck.tier == "quick"
-    ck.traces(cf.basin_graph_cases(ck.seed + 15, 150 if q else 4000, 5 if q else 7, "C15", high_degree=6 if q else 60), ["C15"],
+    ck.traces(cf.basin_graph_cases(ck.seed + 15, 150 if q else 4000, 5 if q else 7, "C15", high_degree=12 if q else 150), ["C15"],
               tag="c15", nontrivial=cf.nontrivial_world, sample_events=("BasinGraph",))
 
 
